@@ -15,8 +15,8 @@ derived Serialize prints the string): one encoding using another conversion prin
 Noted, not armed: the inline row-selection builders in build_record_batch accept fewer variants than the functions (no Utf8 parsing); a u64 above i64::MAX is kept as a string and becomes null in an Int64 Arrow column.
 Does NOT decide numeric equality of decoded cells, batch-size independence, or byte-level agreement of the three encodings.
 """
-FLOOR = 12
-REQUIRED = ["C20.a", "C20.b", "C20.c", "C20.d", "C20.e", "C20.f", "C20.g", "C20.h", "C20.i", "C20/C03.e1", "C20/C03.e2"]
+FLOOR = 13
+REQUIRED = ["C20.a", "C20.b", "C20.c", "C20.d", "C20.e", "C20.f", "C20.g", "C20.h", "C20.i", "C20.j", "C20/C03.e1", "C20/C03.e2"]
 
 
 def run(ctx):
@@ -180,6 +180,18 @@ def run(ctx):
                 bad.append(("arrow-column-renamed", "build_arrow_schema names an Arrow field %s instead of the column's own name: the Arrow stream announces other column names than the JSON and text frames of the same result" % fmt_leaves(L), sp(b, c.bb)))
         return bad
     ctx.run("C20.i", "K7 PROV", "shared::response::arrow::build_arrow_schema", "Arrow fields carry the column names of the batch schema", i_)
+
+    def j_(inst):
+        # time columns hold epoch seconds (C16): the Arrow type that announces them must have that unit
+        l = F.fn("response::arrow::logical_to_arrow_type")
+        units = sorted({v_.get("var") for (bb, j2, v_, d_) in l.aggregates("TimeUnit", None)})
+        inst.sites = ["logical_to_arrow_type announces time columns as %s" % units]
+        if not units:
+            raise AnchorMissing("TimeUnit in logical_to_arrow_type")
+        if units != ["Second"]:
+            return [("arrow-timestamp-unit:%s" % "+".join(units), "logical_to_arrow_type types time columns as Timestamp(%s) while the builders append the stored epoch seconds unchanged: an Arrow client decodes 2025-01-01 as 1970-01-21, the JSON and text encodings of the same result say 1735689600" % "/".join(units), None)]
+        return []
+    ctx.run("C20.j", "K6 TABLE", "shared::response::arrow::logical_to_arrow_type", "the Arrow time unit is the unit of the stored value", j_)
 
     ctx.note("a u64 above i64::MAX is kept as Utf8 and becomes null in an Arrow Int64 column while JSON prints the number (value level, not armed)")
 
